@@ -814,6 +814,9 @@ func c09Scenarios(tier string) []*Scenario {
 	for _, s := range []string{"inorder", "dup", "unknown", "error", "none"} {
 		add(c09P{Push: true, N: 1, Script: s}, b1)
 	}
+	if q {
+		add(c09P{Push: true, N: 1, Script: "inorder", PeerCall: true}, Bounds{1, 1, 1}) // with one environment deviation
+	}
 	for _, s := range []string{"inorder", "reverse", "batch", "dup"} {
 		add(c09P{Push: true, N: 2, Script: s}, b2)
 	}
